@@ -190,7 +190,7 @@ impl Prop for C12 {
     type Input = Input;
 
     fn budget(tier: Tier) -> u64 {
-        tier.pick(100_000, 3_000_000)
+        tier.pick(1_500_000, 10_000_000)
     }
 
     fn strategy(_tier: Tier) -> BoxedStrategy<Case> {
